@@ -394,6 +394,9 @@ DEFAULT_LITERALS = [
     ("map-enum-string", {"map": [[{"enum": "E1.A"}, lit_str("a")]]}),
     ("map-string-list", {"map": [[lit_str("k"), {"list": [lit_int(1), lit_int(2)]}]]}),
     ("map-bool-binary", {"map": [[{"bool": True}, lit_str("bb")]]}),
+    ("set-i32", {"list": [lit_int(3), lit_int(3), lit_int(4)]}), ("set-string", {"list": [lit_str("x"), lit_str("x")]}),
+    ("i8", lit_int(-1)), ("i16", lit_int(-1)), ("double", {"int": -3}), ("double", lit_dbl("-0.5")),
+    ("binary", lit_str("caf\u00e9 \u00ff")),
     ("list-i32", {"list": [lit_int(100), lit_int(100), lit_int(200), lit_int(100)]}),
     ("list-string", {"list": [lit_str("x"), lit_str("x"), lit_str("y")]}),
     ("list-bool", {"list": [{"bool": True}, {"bool": True}, {"bool": False}, {"bool": False}]}),
